@@ -393,9 +393,13 @@ class ScoredCollector(Collector):
             # matcher with a more efficient version
             if replace:
                 if replacecounter == 0 or self.minscore != minscore:
-                    if minscore:
+                    # The threshold is in units of the final score, so when
+                    # a final() hook rescales scores it says nothing about
+                    # the matcher's own (raw) quality bounds
+                    minquality = 0 if self.final_fn else (minscore or 0)
+                    if minquality:
                         self.pruned = True
-                    self.matcher = matcher = matcher.replace(minscore or 0)
+                    self.matcher = matcher = matcher.replace(minquality)
                     self.replaced_times += 1
                     if not matcher.is_active():
                         break
